@@ -1,5 +1,6 @@
-\* generation (quick): every finished behaviour (interleaving of <= 3 WriteMsg calls over the 8 size classes with the ReadMsg
-\* calls, every ending); one line per behaviour
+\* design check + generation (both tiers): every interleaving of <= 3 WriteMsg calls over the 8 payload size classes with the
+\* ReadMsg calls, every ending; the history of calls is part of the state (one state per behaviour prefix), the invariants
+\* are checked on every one of them, and every finished behaviour is printed (one line each) for the replay on the real code
 SPECIFICATION Spec
 CONSTANTS
   Classes <- C8
@@ -10,5 +11,7 @@ CONSTANTS
   Ends <- AllEnds
   Shared <- NoShare
 VIEW genView
+INVARIANTS TypeOK ReturnedMessagesImmutable StreamFidelity OwnBuffer CleanFailure Total Complete BoundedAlloc
+PROPERTIES RefusedWritesSilent
 ACTION_CONSTRAINT GenLog
 CHECK_DEADLOCK FALSE
